@@ -44,6 +44,11 @@ func (eval Evaluator) ExternalProduct(op0 *rlwe.Ciphertext, op1 *Ciphertext, opO
 
 	levelQ, levelP := op1.LevelQ(), op1.LevelP()
 
+	// Only the two components of the result are written: a receiver of higher degree is cut to degree one
+	if opOut.Degree() != 1 {
+		opOut.Resize(1, opOut.Level())
+	}
+
 	var c0QP, c1QP ringqp.Poly
 	if op0 == opOut {
 		c0QP, c1QP = eval.BuffQP[1], eval.BuffQP[2]
